@@ -16,6 +16,9 @@ pub mod stdspec {
     pub assume_specification<T> [<[T]>::swap] (s: &mut [T], a: usize, b: usize)
         requires a < old(s)@.len(), b < old(s)@.len()
         ensures final(s)@ == old(s)@.update(a as int, old(s)@[b as int]).update(b as int, old(s)@[a as int]);
+    // (-1)^k: the only use of integer pow in the crate (permutation parity)
+    pub assume_specification [i32::pow] (base: i32, exp: u32) -> (r: i32)
+        ensures base == -1 ==> r == (if exp % 2 == 0 { 1i32 } else { -1i32 });
     pub assume_specification<T> [<[T]>::reverse] (s: &mut [T])
         ensures final(s)@ == old(s)@.reverse();
     #[verifier::external_body]
